@@ -200,6 +200,8 @@ class FakeJob:
         self.path.mkdir(parents=True, exist_ok=True)
         self.basepath = self.path / self.identifier
         self.changes = []
+        # (wherever the token code looks for the event loop of the waiting job)
+        self.scheduler = types.SimpleNamespace(loop=FakeLoop())
 
     def dependencychanged(self, dep, old, new):
         self.changes.append((old.name, new.name))
